@@ -49,9 +49,9 @@ M.contract(
     params={'func_current': PFunc, 'peripheral_previous': Seq(PFunc), 'mfl_funcs': MflFuncs},
     returns=Bool,
     requires=[
-        # counts of the search space are listed in increasing order (ModelFeatures canonical form,
-        # checked by the bounded part) and the candidate is one of them
-        'all(implies(q < r, mfl_funcs.periph_ns[q] < mfl_funcs.periph_ns[r])'
+        # the counts are keys of a dict, hence pairwise distinct (in ANY order); the candidate is one
+        # of them
+        'all(implies(q != r, mfl_funcs.periph_ns[q] != mfl_funcs.periph_ns[r])'
         '    for q in range(len(mfl_funcs.periph_ns)) for r in range(len(mfl_funcs.periph_ns)))',
         'any(x == func_current.n for x in mfl_funcs.periph_ns)',
         # previously applied transformations come from the same dict
@@ -72,6 +72,12 @@ M.contract(
     ],
     exit_hints=[
         'all(n_prev[q] == peripheral_previous[q].n for q in range(len(n_prev)))',
+        # n_all is the sorted list of the counts: same elements, strictly increasing
+        'all(implies(a < b, n_all[a] <= n_all[b]) for a in range(len(n_all)) for b in range(len(n_all)))',
+        'all(implies(a != b, n_all[a] != n_all[b]) for a in range(len(n_all)) for b in range(len(n_all)))',
+        'all(implies(a < b, n_all[a] < n_all[b]) for a in range(len(n_all)) for b in range(len(n_all)))',
+        'implies(n_index > 0, n_all[n_index - 1] < n)',
+        'implies(n_index > 0, any(x == n_all[n_index - 1] for x in mfl_funcs.periph_ns))',
         'implies(RULE, any(j < n_index and n_all[j] == max(n_prev) for j in range(len(n_all))))',
         'implies(RULE, n_index > 0)',
         'implies(RULE, n_all[n_index - 1] <= max(n_prev))',
